@@ -81,8 +81,8 @@ CURATED = {
     },
     "kernelpy": { "PyModel.__init__": ("C09",), "PyKernel.release": ("C11",), "PyInput.release": ("C11",), "PyModel.release": ("C11",),
         MODULE_BODY: ("C09",),
-        "PyModel.make_kernel": ("C09",), "PyInput.__init__": ("C01", "C03", "C04", "C09", "C10", "C11", "C15", "C19"), "PyKernel.__init__": ("C01", "C07", "C09", "C11",), "PyKernel._call_kernel": ("C01", "C06", "C07", "C09", "C11", "C14",),
-        "_loops": ("C01", "C07", "C09", "C11", "C14",), "_create_default_functions": ("C09", "C11",), "_create_vector_Iq": ("C09", "C10", "C11", "C19",), "_create_vector_Iqxy": ("C09", "C10", "C11", "C19",),
+        "PyModel.make_kernel": ("C09",), "PyInput.__init__": ("C01", "C03", "C04", "C09", "C10", "C11", "C15", "C19"), "PyKernel.__init__": ("C01", "C05", "C07", "C09", "C11",), "PyKernel._call_kernel": ("C01", "C06", "C07", "C09", "C11", "C14",),
+        "_loops": ("C01", "C07", "C09", "C11", "C14",), "_create_default_functions": ("C09", "C11",), "_create_vector_Iq": ("C09", "C10", "C11", "C19",), "_create_vector_Iqxy": ("C05", "C09", "C10", "C11", "C19",),
     },
     "sasview_model": { "SasviewModel.getParamList": ("C10",), "SasviewModel.getDispParamList": ("C10",), "SasviewModel.is_fittable": ("C10",), "SasviewModel.calculate_ER": ("C10", "C14",), "SasviewModel.calculate_VR": ("C10", "C14",), "SasviewModel._dispersion_mesh": ("C10",), "SasviewModel.calc_composition_models": ("C10",), "MultiplicationModel": ("C07", "C10",), "SasviewModel.__get_state__": ("C11",), "SasviewModel.__set_state__": ("C11",), "find_model": ("C10",), "load_standard_models": ("C10",), "reset_environment": ("C11", "C17",),
         MODULE_BODY: ("C10", "C11"),
